@@ -60,6 +60,9 @@ c16!(c16_label_absolute_no_panic, 2, decode_label_never_panics(&MsgHooks { langu
 //@ C16 c16_msg_read_size3 quick default MSG: read_instr on arbitrary header bytes whose size field is 3 (3 argument bytes: not a multiple of 4) returns Ok or Err and never panics (no underflow, no failed assert, no out-of-range read)
 c16!(c16_msg_read_size3, 12, read_instr_never_panics::<7>(&MsgHooks { language: LanguageKey::Msg }, 3, 1, 3));
 
+//@ C16 c16_msg_read_any8 quick default MSG: read_instr on 8 ARBITRARY bytes (size field symbolic too: every value, including sizes beyond the buffer, which end in an end-of-file error) returns Ok or Err and never panics
+c16!(c16_msg_read_any8, 12, read_instr_never_panics::<8>(&MsgHooks { language: LanguageKey::Msg }, 0, 0, 0));
+
 #[cfg(kani)]
 #[path = "/verif/.cache/playback/msg.rs"]
 mod playback;
